@@ -601,25 +601,265 @@ Definition coded_op (S : schema) (root : list Z) (buf : list Z) (o : cop) : cres
   | CSetMany l => coded_set_many S root buf l
   end.
 
-(* ---------------------------------------------------------------- defect classes (selectors on the case) *)
-Definition has_key_step (p : list pstep) : bool := existsb (fun s => pt_of_step s =? PT_KEY) p.
-Definition has_index_step (p : list pstep) : bool := existsb (fun s => pt_of_step s =? PT_INDEX) p.
+(* ---------------------------------------------------------------- defect classes (selectors on the case)
+   ids are listed in findings/C10.json:
+   1001 edit at / below a MAP VALUE: the enclosing map-entry length is never re-patched (no address is recorded for
+        the entry; the in-place `continue` even patches the FIRST entry of the map instead)
+   1002 insertion of an absent map key writes a malformed entry (key tag built from proto.Type / from the VALUE type,
+        value tagged with field number 1)
+   1003 list index addressing: unpacked lists get the offset AFTER the element tag, index == len is reported as found
+   1004 int-key step on a map keyed by fixed32 / fixed64 / bool: plain error -> `err.(Node)` panics
+   1005 a message emptied by the edit is removed together with its tag (presence lost) / other plain field paths
+   1006 SetMany on the root value *)
+Definition is_key (s : pstep) : bool := pt_of_step s =? PT_KEY.
+Definition is_index (s : pstep) : bool := pt_of_step s =? PT_INDEX.
 
-(* ids are listed in findings/C10.json *)
-Definition class_of (o : cop) : Z :=
+(* the key kinds of the maps the path goes through with an int key *)
+Fixpoint bad_intkey (S : schema) (lbl : flabel) (t : ftype) (p : list pstep) {struct p} : bool :=
+  match p with
+  | [] => false
+  | st :: rest =>
+    match lbl with
+    | LSingular =>
+      match t with
+      | TMsg name =>
+        match find_msg S name with
+        | Some md => match (match st with PField id => find_field md id | PName s => by_name md s | _ => None end) with
+                     | Some fd => bad_intkey S (fd_label fd) (fd_type fd) rest
+                     | None => false
+                     end
+        | None => false
+        end
+      | TScalar _ => false
+      end
+    | LRepeated _ => bad_intkey S LSingular t rest
+    | LMap kk =>
+      match st with
+      | PIntKey _ => (kk =? 6) || (kk =? 7) || (kk =? 8) || bad_intkey S LSingular t rest
+      | _ => bad_intkey S LSingular t rest
+      end
+    end
+  end.
+
+Fixpoint first_container (p : list pstep) : Z :=
+  match p with
+  | [] => 0
+  | s :: r => if is_key s then PT_KEY else if is_index s then PT_INDEX else first_container r
+  end.
+
+Definition class_of (S : schema) (root : list Z) (o : cop) (coded_ex : bool) : Z :=
   match o with
-  | CSet p _ => if has_key_step p then 1001 else if has_index_step p then 1002 else 1003
-  | CUnset p => if has_key_step p then 1001 else if has_index_step p then 1002 else 1003
-  | CSetMany _ => 1004
+  | CSetMany _ => 1006
+  | CSet p _ | CUnset p =>
+    if bad_intkey S LSingular (TMsg root) p then 1004
+    else if (match o with CSet _ _ => true | _ => false end) && negb coded_ex &&
+            match last_step p with Some s => is_key s | None => false end then 1002
+    else if first_container p =? PT_KEY then 1001
+    else if first_container p =? PT_INDEX then 1003
+    else 1005
   end.
 
 Definition known_class (S : schema) (root : list Z) (prev : list Z) (o : cop) (err ex : Z) (res : list Z) : option Z :=
   match coded_op S root prev o with
   | CRes e x b =>
     if (err =? e) && bytes_eqb res b && (match o with CSet _ _ => (err =? 1) || (ex =? Z.b2z x) | _ => true end)
-    then Some (class_of o) else None
-  | CPanic => if err =? 2 then Some (class_of o) else None
+    then Some (class_of S root o x) else None
+  | CPanic => if err =? 2 then Some (class_of S root o true) else None
   | CUnmodelled => None
   end.
 
-Definition known_load (S : schema) (root : list Z) (b0 : list Z) (rec err : Z) (outb : list Z) : option Z := None.
+(* does the transcription predict exactly what the implementation returned? (drift detection on conforming steps) *)
+Definition coded_agrees (S : schema) (root : list Z) (prev : list Z) (o : cop) (err ex : Z) (res : list Z) : bool :=
+  match coded_op S root prev o with
+  | CRes e x b => (err =? e) && bytes_eqb res b && (match o with CSet _ _ => (err =? 1) || (ex =? Z.b2z x) | _ => true end)
+  | CPanic => err =? 2
+  | CUnmodelled => true
+  end.
+
+(* ---------------------------------------------------------------- PathNode.Load(recurse) + Marshal as coded, on the AST
+   of a canonical (reference) encoding: recursive Load fails on an empty nested message (`messageLen <= 0`, path.go
+   handleChild) and on maps keyed by fixed32 / fixed64 (ReadInt has no case) / bool (unsupported key type);
+   marshal writes every varint map key with WriteInt64 (sint32 / sint64 keys lose their zig-zag coding). *)
+Fixpoint has_empty_msg (v : pval) : bool :=
+  match v with
+  | VMsg [] => true
+  | VMsg fs => existsb (fun nv => has_empty_msg (snd nv)) fs
+  | VList _ vs => existsb has_empty_msg vs
+  | VMap kvs => existsb (fun kx => has_empty_msg (snd kx)) kvs
+  | _ => false
+  end.
+Definition key_kind_of (k : mkey) : Z := match k with KInt kk _ => kk | KStr _ => 9 end.
+Fixpoint has_key_kind (f : Z -> bool) (v : pval) : bool :=
+  match v with
+  | VMsg fs => existsb (fun nv => has_key_kind f (snd nv)) fs
+  | VList _ vs => existsb (has_key_kind f) vs
+  | VMap kvs => existsb (fun kx => f (key_kind_of (fst kx)) || has_key_kind f (snd kx)) kvs
+  | _ => false
+  end.
+Fixpoint quirk_keys (v : pval) : pval :=
+  match v with
+  | VMsg fs => VMsg (map (fun nv => (fst nv, quirk_keys (snd nv))) fs)
+  | VList p vs => VList p (map quirk_keys vs)
+  | VMap kvs => VMap (map (fun kx => (match fst kx with
+                                     | KInt kk x => if (kk =? 17) || (kk =? 18) then KInt 3 x else KInt kk x
+                                     | k => k
+                                     end, quirk_keys (snd kx))) kvs)
+  | x => x
+  end.
+
+(* ---------------------------------------------------------------- PathNode.Load(recurse=true) + Marshal as coded, on bytes
+   (path.go scanChildren / handleChild l.287-520, marshal l.639-802).  The protocol cursor is global: a nested scan works on
+   p.Buf[start:], whose END is the end of the whole buffer, and the parent continues where the child stopped. *)
+Definition lm_tag (num wt : Z) : list Z := varint_enc ((num * 8 + wt) mod 2 ^ 64).
+Definition lm_len (x : list Z) : list Z := varint_enc (blen x) ++ x.          (* Append/FinishSpeculativeLength *)
+Definition slice_ (buf : list Z) (s e : Z) : list Z := firstn (Z.to_nat (e - s)) (at_ buf s).
+
+Section LoadLoops.
+  (* the child handler at the next smaller recursion fuel: desc, Read after the tag, tag length -> marshalled child, new Read *)
+  Variable rec : tdesc -> Z -> Z -> eres (list Z * Z).
+  Variable S : schema.
+  Variable buf : list Z.
+
+  (* skip the remaining records with the same field number (to the end of the buffer) *)
+  Fixpoint lm_absorb (fuel : nat) (rd fnum : Z) : eres Z :=
+    match fuel with
+    | O => EPanic
+    | Datatypes.S f =>
+      if rd <? blen buf then
+        elet '(num, wt, n) := c_tag_peek buf rd in
+        if negb (num =? fnum) then EOk rd
+        else elet rd1 := c_skip buf (rd + n) wt in lm_absorb f rd1 fnum
+      else EOk rd
+    end.
+
+  Fixpoint lm_msg_loop (fuel : nat) (md : mdesc) (rd stop : Z) (acc : list Z) : eres (list Z * Z) :=
+    match fuel with
+    | O => EPanic
+    | Datatypes.S f =>
+      if rd <? stop then
+        elet '(num, wt, rd1) := c_tag buf rd in
+        match find_field md num with
+        | None =>                                     (* handleUnknownChild: the whole run is kept as raw bytes *)
+          elet rd2 := c_skip buf rd1 wt in
+          elet rd3 := lm_absorb fuel rd2 num in
+          lm_msg_loop f md rd3 stop (acc ++ slice_ buf rd rd3)
+        | Some fd =>
+          let d := td_of_field fd in
+          elet '(o, rd2) := rec d rd1 (rd1 - rd) in
+          let tag := match d with DList _ _ | DMap _ _ _ => [] | _ => lm_tag num (wire_of_type (td_type d)) end in
+          lm_msg_loop f md rd2 stop (acc ++ tag ++ o)
+        end
+      else EOk (acc, rd)
+    end.
+
+  Fixpoint lm_packed_loop (fuel : nat) (e : tdesc) (rd stop : Z) (acc : list Z) (n : Z) : eres (list Z * Z * Z) :=
+    match fuel with
+    | O => EPanic
+    | Datatypes.S f =>
+      if rd <? stop then
+        elet '(o, rd1) := rec e rd 0 in lm_packed_loop f e rd1 stop (acc ++ o) (n + 1)
+      else EOk (acc, rd, n)
+    end.
+
+  Fixpoint lm_unpacked_loop (fuel : nat) (e : tdesc) (fnum : Z) (rd : Z) (acc : list Z) (n : Z) : eres (list Z * Z * Z) :=
+    match fuel with
+    | O => EPanic
+    | Datatypes.S f =>
+      if rd <? blen buf then
+        elet '(num, _, tl) := c_tag_peek buf rd in
+        if negb (num =? fnum) then EOk (acc, rd, n)
+        else
+          elet '(o, rd1) := rec e (rd + tl) tl in
+          lm_unpacked_loop f e fnum rd1 (acc ++ lm_tag fnum (wire_of_type (td_type e)) ++ o) (n + 1)
+      else EOk (acc, rd, n)
+    end.
+
+  Fixpoint lm_map_loop (fuel : nat) (fnum kk : Z) (e : tdesc) (rd : Z) (acc : list Z) (n : Z) : eres (list Z * Z * Z) :=
+    match fuel with
+    | O => EPanic
+    | Datatypes.S f =>
+      if rd <? blen buf then
+        elet '(num, _, tl) := c_tag_peek buf rd in
+        if negb (num =? fnum) then EOk (acc, rd, n)
+        else
+          elet '(plen_, rd1) := c_len buf (rd + tl) in
+          if plen_ <=? 0 then EPlain else
+          elet '(_, _, rd2) := c_tag buf rd1 in
+          elet '(keyb, rd3) :=
+            (if kk =? 9 then elet '(s, r) := c_string buf rd2 in EOk (lm_tag 1 2 ++ varint_enc (blen s) ++ s, r)
+             else if is_int_type kk then
+               elet '(x, r) := c_int buf rd2 kk in
+               let wt := wire_of_type kk in
+               EOk (lm_tag 1 wt ++ (if wt =? 0 then varint_enc (x mod 2 ^ 64)
+                                    else if wt =? 5 then le_enc 4 (x mod 2 ^ 32) else le_enc 8 (x mod 2 ^ 64)), r)
+             else EPlain) in
+          elet '(_, _, rd4) := c_tag buf rd3 in
+          elet '(o, rd5) := rec e rd4 (rd4 - rd3) in
+          let vtag := lm_tag 2 (wire_of_type (td_type e)) in
+          lm_map_loop f fnum kk e rd5 (acc ++ lm_tag fnum 2 ++ lm_len (keyb ++ vtag ++ o)) (n + 1)
+      else EOk (acc, rd, n)
+    end.
+End LoadLoops.
+
+Fixpoint lm_child (fuel : nat) (S : schema) (buf : list Z) (d : tdesc) (rd tagL : Z) {struct fuel} : eres (list Z * Z) :=
+  match fuel with
+  | O => EPanic
+  | Datatypes.S f =>
+    let bf := Datatypes.S (length buf) in
+    let tty := td_type d in
+    let container := (tty =? T_LIST) || (tty =? T_MAP) in
+    let start := if container then rd - tagL else rd in
+    if start <? 0 then EPlain else
+    elet rd1 := c_skip buf rd (if container then 2 else wire_of_type tty) in
+    elet rd2 := (if ((tty =? T_LIST) && negb (td_packed d)) || (tty =? T_MAP)
+                 then lm_absorb buf bf rd1 (td_baseid d) else EOk rd1) in
+    match d with
+    | DScalar _ => EOk (slice_ buf start rd2, rd2)
+    | DMsg name =>
+      match find_msg S name with
+      | None => EPanic
+      | Some md =>
+        elet '(mlen, r0) := c_len buf start in
+        if mlen <=? 0 then EPlain else
+        elet '(body, rdE) := lm_msg_loop (lm_child f S buf) buf bf md r0 (r0 + mlen) [] in
+        EOk (lm_len body, rdE)
+      end
+    | DList id e =>
+      if td_packed d then
+        elet '(_, _, r0) := c_tag buf start in
+        elet '(llen, r1) := c_len buf r0 in
+        elet '(body, rdE, n) := lm_packed_loop (lm_child f S buf) bf e r1 (r1 + llen) [] 0 in
+        EOk ((if n =? 0 then slice_ buf start rd2 else lm_tag id 2 ++ lm_len body), rdE)
+      else
+        elet '(body, rdE, n) := lm_unpacked_loop (lm_child f S buf) buf bf e id start [] 0 in
+        EOk ((if n =? 0 then slice_ buf start rd2 else body), rdE)
+    | DMap id kk e =>
+      elet '(body, rdE, n) := lm_map_loop (lm_child f S buf) buf bf id kk e start [] 0 in
+      EOk ((if n =? 0 then slice_ buf start rd2 else body), rdE)
+    end
+  end.
+
+Definition coded_load_marshal (S : schema) (root : list Z) (buf : list Z) : eres (list Z) :=
+  match find_msg S root with
+  | None => EPanic
+  | Some md =>
+    let fuel := Datatypes.S (2 * length buf) in
+    elet '(o, _) := lm_msg_loop (lm_child fuel S buf) buf (Datatypes.S (length buf)) md 0 (blen buf) [] in EOk o
+  end.
+
+(* 1007 recursive Load rejects an empty nested message; 1008 ... maps keyed by fixed32/fixed64/bool;
+   1009 sint32/sint64 map keys are re-marshalled without zig-zag; 1010 a repeated / map run is scanned to the end of the
+   BUFFER: records of the enclosing message with the same field number are swallowed by the nested list *)
+Definition known_load (S : schema) (root : list Z) (m0 : pmsg) (b0 : list Z) (rec err : Z) (outb : list Z) : option Z :=
+  if negb (rec =? 1) then None else
+  let v := VMsg m0 in
+  let empty := existsb (fun nv => has_empty_msg (snd nv)) m0 in
+  let badkey := has_key_kind (fun k => (k =? 6) || (k =? 7) || (k =? 8)) v in
+  match coded_load_marshal S root b0 with
+  | EOk o =>
+    if (err =? 0) && bytes_eqb outb o then
+      Some (if has_key_kind (fun k => (k =? 17) || (k =? 18)) v then 1009 else 1010)
+    else None
+  | EPanic => None
+  | _ => if err =? 1 then Some (if empty then 1007 else if badkey then 1008 else 1010) else None
+  end.
